@@ -27,8 +27,8 @@ def configs(tier):
                 dict(T=2, nmax=2, variant="plain"), dict(T=2, nmax=3, variant="fail"), dict(T=2, nmax=2, variant="early")]
     return [dict(T=1, nmax=7, variant=v) for v in ("plain", "fail", "early")] + \
            [dict(T=2, nmax=3, variant=v) for v in ("plain", "fail", "early")] + \
-           [dict(T=2, nmax=4, variant="fail"), dict(T=3, nmax=2, variant="plain"), dict(T=3, nmax=2, variant="fail"),
-            dict(T=3, nmax=2, variant="early")]
+           [dict(T=3, nmax=2, variant="plain"), dict(T=3, nmax=1, variant="fail"), dict(T=3, nmax=2, variant="early")]
+    # measured: T=2 n<=4 'fail' and T=3 n<=2 'fail' exceed the 600 s per-query solver budget (unknown) -> outside the claim
 
 
 def run_config(cfg):
